@@ -104,6 +104,19 @@ def handle (op : String) (args : List String) : Option String :=
     let trig := ls.any (fun o => match o with | some r => isCmpPanic r | none => false) ||
                 ys.any (fun o => match o with | some (some r) => isCmpPanic r | _ => false)
     pure (s!"strict={strict} L:{shL} Y:{shY} same={same}" ++ (if trig then "\t!F-C12-1" else ""))
+  | "rel.satsv", [t, asg] => do
+    let s ← decStr t
+    let a ← decAssign asg
+    let p := parse s true
+    let lks : List (Option Lookup) :=
+      [some (Lookup.ofMap a), some (Lookup.ofFn (closureOf a)),
+       match a with | [b] => some (Lookup.ofPair b) | _ => none]
+    let ls := lks.map fun lk => lk.map fun lk => relationsSatLO DebVersion.compareO lk p.tree
+    let shL := String.join (ls.map fun o => match o with | some r => showB r | none => "-")
+    -- `entries().all(|e| e.satisfied_by(..))`: the same function (relationsSatLO is that fold)
+    let le := showB (relationsSatLO DebVersion.compareO (Lookup.ofFn (closureOf a)) p.tree)
+    let trig := ls.any (fun o => match o with | some r => isCmpPanic r | none => false)
+    pure (s!"errs={encBool p.errors.isEmpty} L:{shL}{le} nsv={(substvars p.tree).length}" ++ (if trig then "\t!F-C12-1" else ""))
   | _, _ => none
 
 end Deb822Verif.Driver.Sat
